@@ -14,6 +14,7 @@ from buidl.helper import (
     sha256,
 )
 from buidl.op import (
+    decode_num,
     number_to_op_code,
     op_checksig_schnorr,
     op_code_to_number,
@@ -276,7 +277,8 @@ class Script:
                         op_lookup = TAPROOT_OP_CODE_FUNCTIONS
         if len(stack) == 0:
             return False
-        if stack.pop() == b"":
+        # the top element has to be true: any encoding of zero is false
+        if decode_num(stack.pop()) == 0:
             return False
         return True
 
